@@ -523,6 +523,61 @@ ALIAS_STREAMS = [
   'hash-equal-params', 'placeholder-child-explicit-name', 'sibling-internal-structs',
 ]
 
+# ---------------------------------------------------------------------- several enabled sub-trees, ONE pass application
+
+def multi_subtree(rng, uid):
+  """A top that is NOT translated itself with 2-4 children that carry <Pass>.enable: ordinary components, Verilog
+  placeholders, components containing a placeholder, the same class twice, with / without explicit_module_name; the
+  child names are drawn so that every repr order of the kinds occurs. The module offers
+    make_top()                         the whole design
+    prepare( top, P, PlaceholderPass ) marks the children, returns [(child name, component)]
+    make_alone( name )                 that child's sub-tree as a top of its own
+    prepare_alone( top, P, PlaceholderPass, name )"""
+  u = uid
+  n = rng.choice([2, 2, 3, 3, 4])
+  kinds = [rng.choice(['vreg', 'incr', 'pipe', 'incr', 'pipe', 'vreg2']) for _ in range(n)]
+  if rng.random() < 0.6 and not any(k in ('vreg', 'vreg2') for k in kinds): kinds[rng.randrange(n)] = 'vreg'
+  if rng.random() < 0.3: kinds[-1] = kinds[0]                     # the same class twice
+  names = rng.sample(['a_x', 'b_x', 'c_x', 'd_x', 'e_x', 'A_x', 'z', 'm0', 'm1', 'm10', 'm2'], n)
+  expr = {'vreg': f'VReg_{u}()', 'vreg2': f'VBuf_{u}()', 'pipe': f'Pipe_{u}()'}
+  children, ks = [], {}
+  for nm, k in zip(names, kinds):
+    e = expr.get(k) or f'Incr_{u}( {rng.choice([1, 2, 3])} )'
+    explicit = f'Named_{nm}_{u}' if rng.random() < 0.25 else ''
+    children.append((nm, k, e, explicit))
+  vfile = lambda name, body: (f'module {name}(\n  input  logic          clk,\n  input  logic          reset,\n'
+                              f'  output logic [32-1:0] q,\n  input  logic [32-1:0] d\n);\n{body}endmodule\n')
+  files = [(f'VReg_{u}.v', vfile(f'VReg_{u}', '  always_ff @(posedge clk) begin\n    q <= d;\n  end\n')),
+           (f'VBuf_{u}.v', vfile(f'VBuf_{u}', '  assign q = d;\n'))]
+  def ph(name):
+    return (f'class {name}( VerilogPlaceholder, Component ):\n  def construct( s ):\n'
+            f'    s.d = InPort( Bits32 ); s.q = OutPort( Bits32 )\n'
+            f'    s.set_metadata( VerilogPlaceholderPass.src_file, os.path.join( HERE, "{name}.v" ) )\n'
+            f'    s.set_metadata( VerilogPlaceholderPass.top_module, "{name}" )\n')
+  body = [f'class Top_{u}( Component ):', '  def construct( s ):', '    s.in_ = InPort( Bits32 )']
+  for nm, k, e, _ in children:
+    i, o = ('d', 'q') if k in ('vreg', 'vreg2') else ('in_', 'out')
+    body += [f'    s.o_{nm} = OutPort( Bits32 ); s.{nm} = {e}; s.{nm}.{i} //= s.in_; s.o_{nm} //= s.{nm}.{o}']
+  src = ('import os\nfrom pymtl3 import *\nfrom pymtl3.passes.backends.verilog import VerilogPlaceholder, VerilogPlaceholderPass\n'
+         'HERE = os.path.dirname( os.path.abspath( __file__ ) )\n' + ph(f'VReg_{u}') + ph(f'VBuf_{u}') +
+         f'class Incr_{u}( Component ):\n  def construct( s, k ):\n    s.in_ = InPort( Bits32 ); s.out = OutPort( Bits32 )\n'
+         f'    @update\n    def up_incr():\n      s.out @= s.in_ + k\n'
+         f'class Pipe_{u}( Component ):\n  def construct( s ):\n    s.in_ = InPort( Bits32 ); s.out = OutPort( Bits32 )\n'
+         f'    s.reg_ = VReg_{u}(); s.incr = Incr_{u}( 1 )\n    s.reg_.d //= s.in_; s.incr.in_ //= s.reg_.q; s.out //= s.incr.out\n'
+         + '\n'.join(body) + '\n'
+         f'CHILDREN = {[(nm, e, ex) for nm, _, e, ex in children]!r}\n'
+         f'def make_top():\n  return Top_{u}()\n'
+         f'def prepare( top, P, PlaceholderPass ):\n  subs = []\n  for nm, _, ex in CHILDREN:\n    c = getattr( top, nm )\n'
+         f'    c.set_metadata( P.enable, True )\n    if ex: c.set_metadata( P.explicit_module_name, ex )\n    subs.append( ( nm, c ) )\n'
+         f'  top.apply( PlaceholderPass() )\n  return subs\n'
+         f'def make_alone( name ):\n  return eval( dict( ( nm, e ) for nm, e, _ in CHILDREN )[ name ] )\n'
+         f'def prepare_alone( top, P, PlaceholderPass, name ):\n  ex = dict( ( nm, x ) for nm, _, x in CHILDREN )[ name ]\n'
+         f'  top.set_metadata( P.enable, True )\n  if ex: top.set_metadata( P.explicit_module_name, ex )\n'
+         f'  top.apply( PlaceholderPass() )\n  return [ ( name, top ) ]\n')
+  return {'uid': f'm{uid}', 'kind': 'multi', 'stream': 'multi-subtree-pass', 'module': f'c13_m{uid}', 'source': src,
+          'extra_modules': [], 'extra_files': files, 'children': [(nm, k, ex) for nm, k, _, ex in children],
+          'features': ['multi:' + '-'.join(k for _, k, _, _ in sorted(children))]}
+
 def write_design(workdir, d):
   """write the module file(s) of a design under workdir/designs; returns the directory"""
   dd = os.path.join(workdir, 'designs')
